@@ -107,6 +107,7 @@ func (e *Env) evalModItems(exprs []ast.Expr) []modItem {
 		case KInt, KBool, KRef, KSeq, KOpaque:
 			out = append(out, modItem{kind: "cell", ref: ref, heapK: heapOfKind(kindOf(t)), src: src})
 		case KArr:
+			e.r.assumeTy(e.st, ref, types.NewPointer(t))
 			out = append(out, modItem{kind: "arr", ref: ref, src: src})
 		default:
 			out = append(out, modItem{kind: "sub", ref: ref, src: src})
@@ -1161,8 +1162,8 @@ func (r *FnRun) checkInvariants(st *State, li *loopInfo, kind string, b *ssa.Bas
 		env := r.loopEnv(st, b)
 		g := env.eval(inv.Expr)
 		if env.err != nil {
-			r.errorf("%s:%d: %v", inv.File, inv.Line, env.err)
-			return
+			r.unstatable(st, kind, fmt.Sprintf("loop%d.%d", li.ord, i+1), inv, env.err)
+			continue
 		}
 		lbl := fmt.Sprintf("loop%d.%d", li.ord, i+1)
 		if inv.Name != "" {
@@ -1187,8 +1188,7 @@ func (r *FnRun) assumeInvariants(st *State, li *loopInfo, b *ssa.BasicBlock, cut
 		env := r.loopEnv(st, b)
 		g := env.eval(inv.Expr)
 		if env.err != nil {
-			r.errorf("%s:%d: %v", inv.File, inv.Line, env.err)
-			return
+			continue // reported by checkInvariants
 		}
 		st.assume(g.S)
 	}
@@ -1370,8 +1370,20 @@ func (r *FnRun) havocLoop(st *State, li *loopInfo, b *ssa.BasicBlock) {
 		if explicit {
 			keepB = sx("<", sx("rootid", "b"), allocNow)
 		}
-		st.assume(fmt.Sprintf("(forall ((b Ref) (i Int)) (! (=> (and %s (not %s)) (= (select (select %s b) i) (select (select %s b) i))) :pattern ((select (select %s b) i))))",
-			keepB, inFrameArr(items, "b", "i"), n, old, n))
+		hasElems := false
+		for _, it := range items {
+			if it.kind == "elems" && it.elemInt {
+				hasElems = true
+			}
+		}
+		if hasElems {
+			st.assume(fmt.Sprintf("(forall ((b Ref) (i Int)) (! (=> (and %s (not %s)) (= (select (select %s b) i) (select (select %s b) i))) :pattern ((select (select %s b) i))))",
+				keepB, inFrameArr(items, "b", "i"), n, old, n))
+		} else {
+			// only whole arrays are in the frame: untouched arrays are equal as arrays
+			st.assume(fmt.Sprintf("(forall ((b Ref)) (! (=> (and %s (not %s)) (= (select %s b) (select %s b))) :pattern ((select %s b))))",
+				keepB, inFrameArr(items, "b", "0"), n, old, n))
+		}
 		st.heap["A"] = n
 	}
 	r.bumpAlloc(st)
@@ -1396,8 +1408,9 @@ func (r *FnRun) atReturn(st *State, res []Val, site ssa.Instruction) {
 	for i, en := range r.C.Ensures {
 		g := env.eval(en.Expr)
 		if env.err != nil {
-			r.errorf("%s:%d: %v", en.File, en.Line, env.err)
-			return
+			r.unstatable(st, "post", fmt.Sprint(i+1), en, env.err)
+			env.err = nil
+			continue
 		}
 		lbl := fmt.Sprintf("%d", i+1)
 		if en.Name != "" {
@@ -1473,4 +1486,24 @@ func (r *FnRun) isFreshRef(p string) bool {
 			return false
 		}
 	}
+}
+
+// unstatable: a contract clause that can no longer be evaluated on the current
+// code (for instance a local variable it names has disappeared) is an
+// undischarged obligation, not a tool error: it discharged on the tree the
+// contract was written for.
+func (r *FnRun) unstatable(st *State, kind, lbl string, cl *Clause, err error) {
+	if cl.Name != "" {
+		lbl = cl.Name
+		if strings.HasPrefix(kind, "inv") {
+			lbl = "loop." + cl.Name
+		}
+	}
+	props := r.C.Serves
+	if len(cl.Props) > 0 {
+		props = cl.Props
+	}
+	o := r.oblig(st, kind, lbl, nil, "false", "clause cannot be stated on the current code ("+err.Error()+"): "+cl.Src, props)
+	o.Clause = cl.Src
+	o.NoSolve = "contract clause no longer evaluable: " + err.Error()
 }
